@@ -6,6 +6,7 @@ import (
 	"fmt"
 	"go/types"
 	"math/big"
+	"regexp"
 	"strings"
 )
 
@@ -74,8 +75,16 @@ func pkgQualifier(p *types.Package) string {
 	return p.Path()
 }
 
+// shortTypeName names a type for region keys: aliases must not split one type into two regions (a `[1]any` array
+// literal is read back through a `[]interface{}` field), so the universe alias `any` is printed as interface{}.
+var anyWord = regexp.MustCompile(`(^|[^.\w])any\b`)
+
 func shortTypeName(t types.Type) string {
-	return types.TypeString(t, pkgQualifier)
+	s := types.TypeString(types.Unalias(t), pkgQualifier)
+	if strings.Contains(s, "any") {
+		s = anyWord.ReplaceAllString(s, "${1}interface{}")
+	}
+	return s
 }
 
 func (tm *TypeMap) SortOf(t types.Type) *Sort {
